@@ -1,7 +1,7 @@
 (* C09 — optimize() does not modify the caller's configuration or task. *)
 From Coq Require Import String List Bool Arith.
 From PV Require Import Skeleton Lifecycle Lifecycle_proofs.
-From PVGen Require Import Algos Expected.
+From PVGen Require Import Algos Expected GenHyper.
 From PVBridge Require Import AlgoBridge LifeMain.
 
 (* every exported optimizer: no store, augmented assignment or mutating call reaches self._config.* / self._task.*, so the
@@ -13,4 +13,10 @@ Proof. exact caller_objects_untouched. Qed.
 Theorem C09_no_known_exception : known_config_writes = nil.
 Proof. reflexivity. Qed.
 
+(* what an optimizer obtains from the task to work on - the bounds - is a fresh pair of arrays on every call of the REGENERATED Task.get_bounds (each return builds
+   np.array(<list built in this call>)): editing them in place, as some numeric kernels do, cannot reach the caller's task.  (T-algo treats get_bounds() results as fresh.) *)
+Theorem C09_bounds_are_fresh_copies : gen_task_bounds_fresh = true.
+Proof. reflexivity. Qed.
+
 Print Assumptions C09_caller_objects_untouched.
+Print Assumptions C09_bounds_are_fresh_copies.
